@@ -35,6 +35,7 @@ fn generators(cfg: &Cfg) -> Vec<Generator> {
     vec![
         Generator { name: "programs", total: cfg.tier.pick(1_200, 60_000), run: run_program, case_cpu_limit_s: 120 },
         Generator { name: "fixtures", total: fixtures().len() as u64, run: run_fixture, case_cpu_limit_s: 300 },
+        Generator { name: "shapes", total: shapes().len() as u64, run: run_shape, case_cpu_limit_s: 120 },
     ]
 }
 
@@ -602,5 +603,81 @@ fn run_fixture(_cfg: &Cfg, index: u64, stats: &mut Stats) {
     let sources = Sources { files: vec![(path.display().to_string(), std::fs::read_to_string(&path).unwrap_or_default())] };
     if monitor(stats, "fixtures", index, &sources, exe, vec!["fixture".into()]) {
         stats.nontrivial(path.display().to_string().as_bytes());
+    }
+}
+
+/* ------------------------------------------------------------------------------------------------------------
+ * Binder and scrutinee shapes over the repository's own standard library (absolute import), one small accepted and
+ * runnable program per shape: the places in which a pattern or a value that is not a plain variable can be written.
+ * The generated core language writes constructor patterns in match arms only and binds `fix` to a variable; these
+ * are the remaining positions. Each program is run by the interpreter first (it has to exit with 0: the shape is
+ * part of the language), then lowered under the same monitors as the generated programs. Tag = shape name.
+ * ------------------------------------------------------------------------------------------------------------ */
+
+const SHAPE_HEADER: &str = "begin\n  param (\n    (/core; /representations; /numeric; /system) :\n    @(import(\"/repo/lib/std/builtin.zy\"))\n  ) that\n  let (/VType; /CType; /Thk; /Ret; /Unit) = core that\n  let (/Scalar = Int64) = representations/i64 that\n  let (/OS; /process) = system that\n  def Box = data | +Box : Int64 end that\n  def Opt = data | +None : Unit | +Some : Int64 end that\n  def OptBox = data | +Nothing : Unit | +Just : Box end that\n  def Bool = data | +False : Unit | +True : Unit end that\n  let Flags = (verbose :: Bool) * (code :: Int64) that\n";
+
+fn shapes() -> Vec<(&'static str, &'static str)> {
+    vec![
+        // control: everything through variables
+        ("control/variable-scrutinee", "  let b : Opt = +Some(0) in\n  match b | +Some(n) => ! (process/exit) n | +None() => ! (process/exit) 1 end\n"),
+        // constructor patterns outside the top of a match arm
+        ("ctor-pattern/let", "  let b : Box = +Box(0) in\n  let +Box(n) = b in\n  ! (process/exit) n\n"),
+        ("ctor-pattern/do", "  do +Box(n) <- ret (+Box(0) : Box);\n  ! (process/exit) n\n"),
+        ("ctor-pattern/fn-parameter", "  do b <- ret (+Box(0) : Box);\n  ! { fn (+Box(n) : Box) => ! (process/exit) n } b\n"),
+        ("ctor-pattern/that", "  let +Box(n) = (+Box(0) : Box) that\n  ! (process/exit) n\n"),
+        ("ctor-pattern/nested-in-ctor", "  let b : OptBox = +Just(+Box(0)) in\n  match b | +Just(+Box(n)) => ! (process/exit) n | +Nothing() => ! (process/exit) 1 end\n"),
+        ("ctor-pattern/under-product-single-arm", "  let b : Int64 * Box = (1, +Box(0)) in\n  match b | (_, +Box(n)) => ! (process/exit) n end\n"),
+        ("ctor-pattern/under-product-two-arms", "  let b : Int64 * Opt = (1, +Some(0)) in\n  match b | (_, +Some(n)) => ! (process/exit) n | (_, +None()) => ! (process/exit) 1 end\n"),
+        ("ctor-pattern/under-alias", "  let b : Box = +Box(0) in\n  let (whole; +Box(n)) = b in\n  ! (process/exit) n\n"),
+        // arms that are not constructor arms
+        ("arms/wildcard-after-ctor", "  let b : Opt = +Some(0) in\n  match b | +Some(n) => ! (process/exit) n | _ => ! (process/exit) 1 end\n"),
+        ("arms/variable-after-ctor", "  let b : Opt = +Some(0) in\n  match b | +Some(n) => ! (process/exit) n | other => ! (process/exit) 1 end\n"),
+        ("arms/two-irrefutable", "  let p : Int64 * Int64 = (0, 1) in\n  match p | (a, b) => ! (process/exit) a | q => ! (process/exit) 1 end\n"),
+        ("arms/single-variable", "  let p : Int64 = 0 in\n  match p | q => ! (process/exit) q end\n"),
+        ("arms/single-wildcard", "  let p : Int64 = 0 in\n  match p | _ => ! (process/exit) 0 end\n"),
+        // fix binders that are not a variable
+        ("fix-binder/hole", "  ! {\n    fix (_ : Thk (Int64 -> OS)) => fn n => ! (process/exit) n\n  } 0\n"),
+        ("fix-binder/alias", "  ! {\n    fix ((loop; again) : Thk (Int64 -> OS)) => fn n => ! (process/exit) n\n  } 0\n"),
+        ("fix-binder/variable", "  ! {\n    fix (loop : Thk (Int64 -> OS)) => fn n => ! (process/exit) n\n  } 0\n"),
+        // scrutinees and arguments that are not plain values
+        ("scrutinee/field-projection", "  def flags : Flags = (verbose = +False(), code = 0) that\n  match flags/verbose\n  | +True() => ! (process/exit) 1\n  | +False() => ! (process/exit) flags/code\n  end\n"),
+        ("scrutinee/pure-application", "  let second : Bool -> Bool -> Bool = fn _ chosen => chosen that\n  match second +True() +False()\n  | +True() => ! (process/exit) 1\n  | +False() => ! (process/exit) 0\n  end\n"),
+        ("scrutinee/annotated-constructor", "  match (+Some(0) : Opt) | +Some(n) => ! (process/exit) n | +None() => ! (process/exit) 1 end\n"),
+        ("scrutinee/projection-under-constructor", "  def flags : Flags = (verbose = +False(), code = 0) that\n  match (+Some(flags/code) : Opt) | +Some(n) => ! (process/exit) n | +None() => ! (process/exit) 1 end\n"),
+        ("scrutinee/product-of-projection", "  def flags : Flags = (verbose = +False(), code = 0) that\n  match (flags/code, flags/verbose) | (n, _) => ! (process/exit) n end\n"),
+        ("argument/pure-application", "  let twice : (Int64 -> Int64) -> Int64 -> Int64 = fn f x => f (f x) that\n  let same : Int64 -> Int64 = fn x => x that\n  ! (process/exit) (twice same 0)\n"),
+        ("argument/field-projection-of-pure-application", "  let mk : Int64 -> Flags = fn c => (verbose = +False(), code = c) that\n  ! (process/exit) (mk 0)/code\n"),
+    ]
+}
+
+fn run_shape(_cfg: &Cfg, index: u64, stats: &mut Stats) {
+    let (name, body) = shapes()[index as usize];
+    stats.cover("shapes", name);
+    let sources = Sources::single(format!("{SHAPE_HEADER}{body}end\n"));
+    let result = pipeline::check_and_run(&sources, b"", &[], 200_000);
+    stats.evaluations += 1;
+    let ran = matches!((&result.verdict, &result.run), (pipeline::Verdict::Checked, Some(run)) if run.end == pipeline::End::Exit(0));
+    if !ran {
+        // not part of the accepted, runnable language (or the shape is misspelt): nothing for C18 to decide
+        stats.cover("shapes_not_accepted_or_not_exiting_0", name);
+        stats.inconclusive("shape program is not accepted and run to exit 0 by the interpreter");
+        return;
+    }
+    let analyzed = pipeline::analyze_overlay(&sources);
+    let Ok(exe) = analyzed.executable() else {
+        stats.inconclusive("accepted but not executable");
+        return;
+    };
+    // known-finding triggers are the classes of shapes, not the single programs
+    let class = match name {
+        | n if n.starts_with("fix-binder/") => "fix-binder-not-a-variable",
+        | n if n.starts_with("arms/") || n == "ctor-pattern/under-product-two-arms" => "match-arms-not-one-per-constructor",
+        | n if n.starts_with("ctor-pattern/") => "constructor-pattern-outside-the-top-of-a-match-arm",
+        | n if n.starts_with("scrutinee/") => "scrutinee-not-a-plain-value",
+        | n if n.starts_with("argument/") => "argument-not-a-plain-value",
+        | _ => "control",
+    };
+    if monitor(stats, "shapes", index, &sources, exe, vec![class.to_string(), name.to_string()]) {
+        stats.nontrivial(name.as_bytes());
     }
 }
